@@ -99,3 +99,10 @@ COMMENT_CHANNEL = dict(
     why={'*': 'parsing with comment capture accepts the same texts and yields the same tree: nothing outside the comment '
               'channel may depend on the capture flag or on the comments collected so far'},
 )
+
+
+# C10: the VLQ codec is a set of pure functions -- no store outside call-local values, no module-level mutable state
+C10 = dict(modules=['calmjs.parse.vlq'], owned_classes=set(), alloc_sites={}, allow=[])
+
+# C16: a Walker carries no state from one walk to the next (the module-level helpers and a reused instance agree)
+C16 = dict(modules=['calmjs.parse.walkers'], owned_classes=set(), alloc_sites={}, allow=[])
